@@ -118,7 +118,12 @@ def check(ctx, fm, idx):
         tol_back = recon.BUD * kdim * (Mn * cnorm + ymax)
         rel = recon.BUD * kap * (1 + kap * rho) * kdim
         forward_ok = rel <= 5e-2
-        tol = rel * Bn * cnorm
+        # forward bound of a backward-stable least-squares solve: eps·k·(κ·‖c*‖ + κ²·‖residual‖/‖M‖) in the coefficients.  The second
+        # term is absolute in the measurements, NOT relative to ‖c*‖: measurements almost orthogonal to the range of the sensor rows give
+        # a tiny c* by cancellation (seed 7 of the session-4 sweep: y·M = −15 + 15 + 1e-5) – the first version multiplied both terms by
+        # ‖c*‖ and raised a false alarm on a reconstruction that was correct to 7e-11 of a 5e-6-sized answer
+        resid_abs = rho * ymax
+        tol = recon.BUD * kdim * Bn * (kap * cnorm + (kap ** 2) * resid_abs / max(Mn, 1e-300))
         if not forward_ok:
             ctx.count("forward_comparison_skipped(budget too large)")
         if kap > 1e6:
